@@ -159,6 +159,20 @@ pub fn extreme_frames() -> Vec<(String, Vec<u8>)> {
     for a in [None, Some(0u32), Some(0x1111_1111 + 5000), Some(0x2222_2222 + 4096), Some(0xFFFF_FFFF)] { for b in [None, Some(0u32), Some(0x11111 + 4096), Some(0x22222 + 4097), Some(0xFFFF_FFFF)] {
         v.push((format!("sync {:x?} {:x?}", a, b), fw(Frame::SyncFrame(SyncFrame { next_frame_id: a, next_packet_id: b }))));
     } }
+    // datagrams longer than a frame (the MTU admits up to 1500 - 28 bytes, jumbo frames and loopback more): CRC-valid data frames whose only
+    // datagram carries more than a fragment, as a single-fragment packet, as the last of two fragments and as the last of 65536
+    for total in [1473usize, 1500, 9000] {
+        for (fid, seq) in [(0x1111_1111u32, 0x11111u32), (0x2222_2222, 0x22222)] {
+            for (f, l) in [(0u16, 0u16), (1, 1), (65535, 65535)] {
+                let n = total - 24;
+                let mut b: Vec<u8> = vec![10, (fid >> 24) as u8, (fid >> 16) as u8, (fid >> 8) as u8, fid as u8, 1,
+                    0xC0, (n >> 8) as u8, n as u8, (seq >> 16) as u8 & 0x0F, (seq >> 8) as u8, seq as u8, 0, 0, 0, 0, (f >> 8) as u8, f as u8, (l >> 8) as u8, l as u8];
+                b.extend(std::iter::repeat(0x5A).take(n));
+                let c = uflow::verif::crc_compute(&b); b.extend_from_slice(&c.to_be_bytes());
+                v.push((format!("oversize data frame {:x} packet {:x} fragment {}/{} of {} bytes ({} B datagram)", fid, seq, f, l, n, b.len()), b));
+            }
+        }
+    }
     // datagrams too short to hold a type byte and a CRC, and the shortest ones with a valid CRC (the CRC of the empty string is 0)
     for n in 0..=8usize { v.push((format!("{} zero bytes", n), vec![0u8; n])); v.push((format!("{} bytes 0xFF", n), vec![0xFF; n])); }
     for n in 0..=3usize { for b in [0u8, 1, 4, 13, 255] {
@@ -169,14 +183,17 @@ pub fn extreme_frames() -> Vec<(String, Vec<u8>)> {
     v
 }
 
+/// a free choice among more alternatives than a choice point holds (255): block of 200 first, then the letter inside it
+fn free_big(ch: &mut Chooser, n: usize) -> usize { if n <= 255 { return ch.free(n); } let hi = ch.free((n + 199) / 200); hi * 200 + ch.free((n - hi * 200).min(200)) }
+
 fn ew_states(pairs: bool) -> Scenario {
     let name = format!("C03.states|pairs{}", pairs as u8);
     let run = move |ch: &mut Chooser| -> ExecResult {
         let alpha = extreme_frames();
         // connection states of client 0 over the rounds: pending (SYN-ACKs lost), active, closing (disconnect into silence), closed
         let variant = ch.free(4);
-        let r = ch.free(14); let dir = ch.free(3); let a = ch.free(alpha.len());
-        let second = if pairs { Some((r + ch.free(3), ch.free(3), ch.free(alpha.len()))) } else { None };
+        let r = ch.free(14); let dir = ch.free(3); let a = free_big(ch, alpha.len());
+        let second = if pairs { Some((r + ch.free(3), ch.free(3), free_big(ch, alpha.len()))) } else { None };
         let after_send = ch.free(3); // what the application does with client 0 / its server side afterwards
         let mut cfg = EwCfg::new(2); cfg.nonces = vec![0x1111_1111, 0x3333_3333, 0x2222_2222, 0x4444_4444];
         let mut script = vec![at(0, Act::Connect(0)), at(0, Act::Connect(1))];
@@ -231,6 +248,9 @@ pub fn build(quick: bool) -> PropRun {
     // CRC re-fixed, constant fills) with the panic oracle: Client::step / Server::step hand every datagram to Frame::read
     crate::c16::FOR_C03.store(true, std::sync::atomic::Ordering::Relaxed);
     units.extend(crate::c16::parse_units(quick));
+    // (f) the reassembly sweep of C04 (every arrival order, duplication and every fragment disagreeing with the first one seen) with the panic oracle
+    crate::c04::FOR_C03.store(true, std::sync::atomic::Ordering::Relaxed);
+    units.extend(crate::c04::receiver_units(quick));
     PropRun { level: "fault_enumeration", scenarios: scs, units, replay_case: Some(replay_case_c03), summary: Summary {
         rule: "every explored execution runs under catch_unwind with a per-call work budget (2*10^6 loop iterations counted by the fuel hooks) and a 30 s wall-clock watchdog: (a) every hostile data/ack/sync frame of a state-relative boundary alphabet injected into either endpoint at every round of a link-world session, followed by step spacings 0/1/20/2000 ms; (b) every payload of <= 1-2 bytes after every type byte and a list of frames with extreme fields, from the connected address, from a stranger and towards the client, in the pending/active/closing/closed states, after which an honest second client must still be served; (c) all TFRC event sequences of C14; (e) the parser sweeps of C16 with the panic oracle; (d) a cross-section of the fault explorations of C01, C02, C05, C07-C11, C13, C17".into(),
         bounds: json!({"lw_rounds": if quick { 8 } else { 12 }, "lw_pairs": !quick, "flood_payload_len": if quick { 1 } else { 2 }, "flood_type_bytes": if quick { "0-13, 32, 64, ..., 250-255" } else { "all 256" }, "extreme_frames": extreme_frames().len(), "tfrc_plans": plans, "fuel_per_call": 2_000_000}),
@@ -240,6 +260,7 @@ pub fn build(quick: bool) -> PropRun {
 }
 
 pub fn replay_case_c03(case: &str) -> Vec<Violation> {
+    if case.starts_with("case:frag:") { crate::c04::FOR_C03.store(true, std::sync::atomic::Ordering::Relaxed); return crate::c04::replay_case(case); }
     if case.starts_with("case:parse:") { crate::c16::FOR_C03.store(true, std::sync::atomic::Ordering::Relaxed); return crate::c16::replay_case(case); }
     crate::c14::replay_case_c03(case)
 }
